@@ -168,3 +168,209 @@ func c05r9(c *Ctx, r *Report) {
 	}
 	r.floor("left-shifted read windows over a written window", nPairs, 1)
 }
+
+// c05r10: neighbour reads of a partially filled scratch matrix are guarded by the fill boundary.
+//
+// FuzzyMatchV2 fills row r of its score matrices only from column F[r] on (the write windows start at
+// row+F[r]-F[0]); the cells to the left keep whatever the previous match left in the slab. The back-trace
+// reads the matrices by absolute index. A read of the current cell relies on the loop invariant
+// j >= F[i]; a read of a NEIGHBOUR cell (an index with a constant offset: previous/next row or column)
+// must be guarded by a comparison with an element of F, or it can hit a cell this call never wrote.
+func c05r10(c *Ctx, r *Report) {
+	l := c.L
+	r.rule("C05-R10", "F (fill boundary of carved matrices) + A (path conditions)", "P1",
+		"in every function that carves score matrices from the slab and fills each row only from a column taken from the first-occurrence table F: every read of such a matrix at an absolute index that contains a constant offset (a neighbouring row/column) happens under a comparison with an element of F",
+		"the back-trace consults a cell this call never wrote: match range and highlight positions depend on what the previous match left in the slab")
+	a16, a32 := l.Fn("algo", "alloc16"), l.Fn("algo", "alloc32")
+	if a16 == nil || a32 == nil {
+		r.unest("anchors", token.NoPos, nil, "anchors alloc16 / alloc32", "cannot resolve")
+		return
+	}
+	nReads := 0
+	for _, fn := range l.AllFuncs() {
+		if fn.Pkg != l.pkg("algo") {
+			continue
+		}
+		carved16, carved32 := map[ssa.Value]bool{}, map[ssa.Value]bool{}
+		eachInstr(fn, func(in ssa.Instruction) {
+			ex, ok := in.(*ssa.Extract)
+			if !ok || ex.Index != 1 {
+				return
+			}
+			if call, ok := ex.Tuple.(*ssa.Call); ok {
+				switch call.Common().StaticCallee() {
+				case a16:
+					carved16[ex] = true
+				case a32:
+					carved32[ex] = true
+				}
+			}
+		})
+		if len(carved16) == 0 || len(carved32) == 0 {
+			continue
+		}
+		// loads of elements of a carved int32 array (through views)
+		isFload := func(v ssa.Value) (ssa.Value, bool) {
+			u, ok := v.(*ssa.UnOp)
+			if !ok || u.Op != token.MUL {
+				return nil, false
+			}
+			ia, ok := u.X.(*ssa.IndexAddr)
+			if !ok {
+				return nil, false
+			}
+			root := ia.X
+			for {
+				if sl, ok := root.(*ssa.Slice); ok {
+					root = sl.X
+					continue
+				}
+				break
+			}
+			return root, carved32[root]
+		}
+		dependsOnF := func(v ssa.Value) ssa.Value {
+			for w := range backwardSlice(v, nil, nil) {
+				if root, ok := isFload(w); ok {
+					return root
+				}
+			}
+			return nil
+		}
+		// partially filled matrices: carved16 arrays with a write window whose low bound depends on an F load
+		partial := map[ssa.Value]ssa.Value{} // matrix -> F
+		eachInstr(fn, func(in ssa.Instruction) {
+			sl, ok := in.(*ssa.Slice)
+			if !ok || !carved16[sl.X] || sl.Low == nil {
+				return
+			}
+			// only windows that are written through (directly or via a re-slice)
+			written := false
+			var refs func(v ssa.Value, d int)
+			refs = func(v ssa.Value, d int) {
+				if d > 3 || v.Referrers() == nil {
+					return
+				}
+				for _, ref := range *v.Referrers() {
+					switch x := ref.(type) {
+					case *ssa.Slice:
+						refs(x, d+1)
+					case *ssa.IndexAddr:
+						if x.Referrers() != nil {
+							for _, r2 := range *x.Referrers() {
+								if st, ok := r2.(*ssa.Store); ok && st.Addr == ssa.Value(x) {
+									written = true
+								}
+							}
+						}
+					}
+				}
+			}
+			refs(sl, 0)
+			if f := dependsOnF(sl.Low); f != nil && written {
+				partial[sl.X] = f
+			}
+		})
+		if len(partial) == 0 {
+			continue
+		}
+		// a non-zero constant inside the index expression, looking only at arithmetic done inside the
+		// loop that carries the index (the stride `width` etc. are computed before it and are atoms)
+		hasConst := func(v ssa.Value) bool {
+			var hdr *ssa.BasicBlock
+			var findPhi func(v ssa.Value, d int)
+			findPhi = func(v ssa.Value, d int) {
+				if d > 8 || hdr != nil {
+					return
+				}
+				switch x := v.(type) {
+				case *ssa.Phi:
+					hdr = x.Block()
+				case *ssa.BinOp:
+					findPhi(x.X, d+1)
+					findPhi(x.Y, d+1)
+				}
+			}
+			findPhi(v, 0)
+			found := false
+			var walk func(v ssa.Value, d int)
+			walk = func(v ssa.Value, d int) {
+				if d > 8 || found {
+					return
+				}
+				switch x := v.(type) {
+				case *ssa.Const:
+					if k, isc := constIntVal(x); isc && k != 0 {
+						found = true
+					}
+				case *ssa.BinOp:
+					if hdr != nil && !hdr.Dominates(x.Block()) {
+						return
+					}
+					walk(x.X, d+1)
+					walk(x.Y, d+1)
+				}
+			}
+			walk(v, 0)
+			return found
+		}
+		pc := pathConds(fn)
+		eachInstr(fn, func(in ssa.Instruction) {
+			u, ok := in.(*ssa.UnOp)
+			if !ok || u.Op != token.MUL {
+				return
+			}
+			ia, ok := u.X.(*ssa.IndexAddr)
+			if !ok {
+				return
+			}
+			F, isPartial := partial[ia.X]
+			if !isPartial || !hasConst(ia.Index) {
+				return
+			}
+			nReads++
+			guarded := false
+			for d := in.Block(); d != nil && !guarded; d = d.Idom() {
+				ds := pc.At(d)
+				if len(ds) == 0 {
+					continue
+				}
+				for _, lt := range ds[0] {
+					b, ok := lt.Atom.(*ssa.BinOp)
+					if !ok {
+						continue
+					}
+					switch b.Op {
+					case token.LSS, token.LEQ, token.GTR, token.GEQ, token.EQL, token.NEQ:
+					default:
+						continue
+					}
+					// one side of the comparison is an element of F itself (possibly converted)
+					direct := func(v ssa.Value) bool {
+						root, ok := isFload(stripConv(v))
+						return ok && root == F
+					}
+					if !direct(b.X) && !direct(b.Y) {
+						continue
+					}
+					common := true
+					for _, dj := range ds[1:] {
+						if !hasLit(dj, func(a ssa.Value, v bool) bool { return a == lt.Atom && v == lt.Val }) {
+							common = false
+						}
+					}
+					if common && (d == in.Block() || d.Dominates(in.Block())) {
+						guarded = true
+					}
+				}
+			}
+			key := fmt.Sprintf("%s:neighbour read %s[%s]", relName(fn), ia.X.Name(), ia.Index.Name())
+			if guarded {
+				r.ok(key, in.Pos(), fn, "the neighbouring cell is read only under a comparison with the fill boundary F[..]")
+			} else {
+				r.bad(key, in.Pos(), fn, "neighbour reads are guarded by the fill boundary", "a neighbouring cell of a partially filled matrix is read without comparing its column with F[row]: it may never have been written by this call")
+			}
+		})
+	}
+	r.floor("neighbour reads of partially filled matrices", nReads, 3)
+}
